@@ -153,6 +153,7 @@ type Interp struct {
 	rangeHints map[*Term][2]int64
 	gwaits     map[*Goroutine]*gwait
 	lastClock  *Term
+	clockTicks int64
 	rtypeObjs  map[string]*Object
 	concrete   []Input
 	concreteMode bool
